@@ -120,6 +120,12 @@ func (r *rconn) do(args ...string) (any, error) {
 	return r.read()
 }
 
+// protoErr: the member answered with a well-formed reply that the protocol does not allow at this point (as opposed to
+// an I/O error or a time-out, which say nothing about the code under test)
+type protoErr string
+
+func (e protoErr) Error() string { return string(e) }
+
 // ---------------------------------------------------------------- the world under test
 const barrier = "zz-barrier"
 
@@ -197,7 +203,7 @@ func (w *world) subscribeAck(s *sub, cmd, name string) error {
 			}
 		}
 		// anything else at this point is unexpected in the sequential driver
-		return fmt.Errorf("unexpected reply to %s %s on %s: %v", cmd, name, s.name, x)
+		return protoErr(fmt.Sprintf("unexpected reply to %s %s on %s: %v", cmd, name, s.name, x))
 	}
 }
 
@@ -218,7 +224,7 @@ func (w *world) unsubscribeAll(s *sub, pat bool) error {
 		}
 		arr, ok := x.([]any)
 		if !ok || len(arr) != 3 {
-			return fmt.Errorf("unexpected reply to %s on %s: %v", cmd, s.name, x)
+			return protoErr(fmt.Sprintf("unexpected reply to %s on %s: %v", cmd, s.name, x))
 		}
 		if n, ok := arr[2].(int); ok && n == 0 {
 			return nil
@@ -252,7 +258,7 @@ func (w *world) drain() (map[string][]trace.Ev, error) {
 			}
 			arr, ok := x.([]any)
 			if !ok || len(arr) < 2 {
-				return nil, fmt.Errorf("unexpected push on %s: %v", name, x)
+				return nil, protoErr(fmt.Sprintf("unexpected push on %s: %v", name, x))
 			}
 			kind, _ := arr[0].(string)
 			if kind == "pong" && arr[1] == payload {
@@ -265,7 +271,7 @@ func (w *world) drain() (map[string][]trace.Ev, error) {
 			case kind == "pmessage" && len(arr) == 4:
 				ev = trace.Ev{"kind": "pmessage", "pat": arr[1], "ch": arr[2], "msg": arr[3]}
 			default:
-				return nil, fmt.Errorf("unexpected push on %s: %v", name, x)
+				return nil, protoErr(fmt.Sprintf("unexpected push on %s: %v", name, x))
 			}
 			got[name] = append(got[name], ev)
 		}
@@ -329,7 +335,7 @@ func (w *world) exec(st step) error {
 				want++
 			}
 		}
-		deadline := time.Now().Add(5 * time.Second)
+		deadline := time.Now().Add(10 * time.Second)
 		for {
 			x, err := w.ctl[s.member-1].do("pubsub", "numsub", barrier)
 			if err != nil {
@@ -342,7 +348,7 @@ func (w *world) exec(st step) error {
 				}
 			}
 			if time.Now().After(deadline) {
-				return fmt.Errorf("server did not drop the closed connection %s", st.C)
+				return protoErr(fmt.Sprintf("10 s after connection %s was closed PUBSUB NUMSUB of the channel every connection subscribes to answers %v on member %d, expected %d", st.C, x, s.member, want))
 			}
 			time.Sleep(2 * time.Millisecond)
 		}
@@ -541,6 +547,11 @@ func TestPubSub(t *testing.T) {
 		tw.Emit(trace.Ev{"t": "reset", "seq": i + 1, "conns": conns})
 		for _, st := range p {
 			if err := w.exec(st); err != nil {
+				if pe, ok := err.(protoErr); ok {
+					// recorded, judged by the trace specification; the rest of the program is skipped
+					tw.Emit(trace.Ev{"t": "anomaly", "step": fmt.Sprintf("%+v", st), "detail": string(pe)})
+					break
+				}
 				t.Fatalf("program %d step %+v: %v", i+1, st, err)
 			}
 		}
